@@ -195,12 +195,28 @@ def r3(cx, rec):
             rec.need(c is not None and a[0] == 'const' and bool(c[0]) == (not top), 'terminator-flag/%s<-%s' % (f.name, g.name), g, gb,
                      '%s calls %s with with_end=%s: %s' % (g.name, f.name, show(a),
                                                           'a stray "e" at the top level is accepted as the end of input' if top else 'a nested container is not required to end with "e"'))
+    scan_rules(cx, rec)
+
+
+def scan_rules(cx, rec):
+    """every take_while(!= T) scan runs unadapted to its terminator and is followed by an end-of-input test -> Err"""
+    F = cx.F
     # (b) take_while scans
     for f in F.user_fns():
         if not f.path.startswith('bcodec::') or f.kind == 'Closure':
             continue
         tws = [bb for bb in mirq.real_calls(f) if f.expr_call(bb)[4].get('name') == 'take_while']
         for tb in tws:
+            # the scan runs to its terminator: no adaptor cuts it short or skips input
+            chain = []
+            x = f.expr_call(tb)
+            while x[0] == 'call' and x[2]:
+                chain.append(x[4].get('name'))
+                x = mirq.init_of(x[2][0]) if x[2][0][0] in ('var', 'mvar') else x[2][0]
+            cut = [n for n in chain if n in ('take', 'skip', 'step_by', 'skip_while', 'map_while', 'filter', 'rev')]
+            rec.need(not cut, 'scan-adapted/' + f.path, f, tb,
+                     'the scan up to the terminator goes through %s: the terminator of a long (or otherwise selected) token is not consumed '
+                     'and the following bytes are mis-read' % cut)
             # an end-of-input observation: nth()/next()/peek() on a clone of the iterator taken before the scan, tested for None -> Err
             obs = False
             for subj, sb, nt, st in mirq.option_tests(f):
@@ -222,3 +238,4 @@ def r3(cx, rec):
                                 rec.site(g, sb, 'end-of-input after %s observed by the caller -> Err' % f.name)
             rec.need(obs, 'scan-without-eof-test/' + f.path, f, tb,
                      'a take_while scan up to a terminator is not followed by a test that the terminator (rather than the end of input) stopped it')
+
